@@ -80,11 +80,13 @@ def int_cond(e, v):
         E, E, lit, E, E, lit)
 
 
-def flt_cond(e, v, tol):
+def flt_cond(e, v, tol, mag=0.0):
+    """mag: largest magnitude of a floating literal in the expression — a sum/difference is only as precise as its
+    operands (cancellation), so the tolerance is relative to max(|v|, mag)"""
     E = '(' + e + ')'
     if v != v or v in (float('inf'), float('-inf')):
         return None
-    a = abs(v) * tol
+    a = max(abs(v), mag) * tol
     V = repr(v) + 'L' if ('e' in repr(v) or '.' in repr(v)) else repr(v) + '.0L'
     T = repr(a if a > 0 else 1e-300) + 'L'
     if 'e' not in T and '.' not in T:
@@ -424,6 +426,17 @@ def _cast_type(n):
     return n.extra if n.k == 'cast' else (n.op if n.k == 'fcast' else (n.txt if n.k == 'ncast' else None))
 
 
+def _sign_unknown_to_cppcheck(c):
+    if c.k == 'leaf':
+        return 'bool' in c.flags or ('chr' in c.flags and c.txt[:1] in 'LuU')
+    if c.k == 'bin':
+        return c.op in ('<', '<=', '>', '>=', '==', '!=', '&&', '||')
+    if c.k == 'pre':
+        return c.op == '!'
+    t = _cast_type(c)
+    return t in ('char', 'bool', '_Bool', 'wchar_t', 'char16_t', 'char32_t')
+
+
 def pat_narrow_operands(n, refs, lang, plat):
     """binary operator whose operands are both narrower than int and of different types: cppcheck converts one
     operand's value to the other operand's narrow type instead of promoting both to int"""
@@ -433,6 +446,14 @@ def pat_narrow_operands(n, refs, lang, plat):
     if not cv:
         return False
     isz = plat.sizes['int']
+    for x, y, cx, cy in ((cv[0], cv[1], n.ch[0], n.ch[1]), (cv[1], cv[0], n.ch[1], n.ch[0])):
+        if x.unsigned or x.value >= 0:
+            continue
+        # x is a negative signed operand
+        if x.size < isz and _cast_type(cx) != _cast_type(cy):
+            return True         # narrower than int: converted to the other operand's type instead of promoted
+        if _sign_unknown_to_cppcheck(cy):
+            return True         # the other operand's type has no sign in cppcheck (bool, plain char, wide characters)
     if cv[0].size >= isz or cv[1].size >= isz:
         return False
     if cv[0].unsigned != cv[1].unsigned or cv[0].size != cv[1].size:
@@ -454,7 +475,7 @@ FINDING_PATTERNS = [
     ('truth-as-value', 'expr:sizeof(st1)+9:unix64', pat_truth_as_value),
     ('cast-char-negative', "expr:(char)-'\\r':unix64", pat_cast_char_negative),
     ('u64-complement', 'expr:~0xFFFFFFFFFFFFFFFF<=0:unix64', pat_u64_complement),
-    ('narrow-operands', 'expr:(unsignedchar)214:unix64 expr:(unsignedshort)65000:unix64 expr:(signedchar)254:unix64', pat_narrow_operands),
+    ('narrow-operands', 'expr:(unsignedchar)214:unix64 expr:(unsignedshort)65000:unix64 expr:(signedchar)254:unix64 expr:~0177777:unix32 expr:(signedchar)255:unix32', pat_narrow_operands),
 ]
 
 
@@ -555,7 +576,7 @@ def check_unit(ctx, d, name, u, lang, plat, use_gcc, use_patterns=True):
                 continue
             ok = (v == rf.value) or (rf.unsigned and rf.size >= 8 and (v - rf.value) % (1 << 64) == 0)
             if not ok and n.k in ('cast', 'fcast', 'ncast') and n.ch and n.ch[0].k == 'leaf' and 'flt' in n.ch[0].flags \
-                    and n.ch[0].txt[-1:] in 'fF':
+                    and (n.ch[0].txt[-1:] in 'fF' or plat.sizes.get('double', 8) < 8):
                 # the value of an f-suffixed literal is only compared with float precision (see level_note)
                 ok = abs(v - rf.value) <= abs(rf.value) * 1e-6
             iresults.append((p, rf, ok))
@@ -575,7 +596,15 @@ def check_unit(ctx, d, name, u, lang, plat, use_gcc, use_patterns=True):
                 # double is a 32-bit type on this platform (avr): the compiler rounds every operation to float
                 # precision; cppcheck computes in the host's double — compared with float precision (level_note)
                 tol = 1e-6
-            cond = flt_cond(txt, v, tol)
+            mag = 0.0
+            if any(x.k == 'bin' and x.op in ('+', '-') for x in n.walk()):
+                for x in n.walk():
+                    if x.k == 'leaf' and 'flt' in x.flags:
+                        try:
+                            mag = max(mag, abs(float(x.txt.rstrip('fFlL'))))
+                        except ValueError:
+                            pass
+            cond = flt_cond(txt, v, tol, mag)
             if cond is None:
                 ctx.count('dropped', 'value not representable in a probe')
                 continue
@@ -690,6 +719,8 @@ def witnesses():
         ('unix64', 'c', B('+', CAST('signed char', I('1')), CAST('unsigned char', I('214')))),
         ('unix64', 'c', B('+', CAST('short', I('1')), CAST('unsigned short', I('65000')))),
         ('unix64', 'c', B('<', CAST('unsigned char', I('1')), CAST('signed char', I('254')))),
+        ('unix32', 'c', B('&', L("L'0'", 'I', ('chr', 'L')), U('~', I('0177777')))),
+        ('unix32', 'c', B('+', B('&&', I('50'), I('255')), CAST('signed char', I('255')))),
     ]
 
 
